@@ -17,6 +17,10 @@ import (
 
 const maxInlineDepth = 4
 
+// functions without a contract are inlined only when small; bigger ones must
+// carry a contract or are havocked by their syntactic may-modify set.
+const maxInlineInstrs = 80
+
 func (fr *Frame) contractFor(fn *ssa.Function) *Contract {
 	if fn == nil {
 		return nil
@@ -92,7 +96,11 @@ func (fr *Frame) staticCall(callee *ssa.Function, bindings []Val, args []Val, rt
 		return v
 	}
 	if ct := fr.contractFor(callee); ct != nil {
-		return fr.applyContract(ct, callee.Signature, paramNames(callee), args, rt, pos, funcKey(callee))
+		names := paramNames(callee)
+		if len(ct.Params) > 0 {
+			names = ct.Params
+		}
+		return fr.applyContract(ct, callee.Signature, names, args, rt, pos, funcKey(callee))
 	}
 	if vc.P.isRepoFunc(callee) && len(callee.Blocks) > 0 {
 		if fr.depth < maxInlineDepth && !fr.onStack(callee) && fr.inlineSize(callee) {
@@ -130,7 +138,7 @@ func (fr *Frame) inlineSize(fn *ssa.Function) bool {
 	for _, b := range fn.Blocks {
 		n += len(b.Instrs)
 	}
-	return n <= 400
+	return n <= maxInlineInstrs
 }
 
 func (fr *Frame) bumpNow() {
@@ -219,8 +227,58 @@ func (fr *Frame) unknownCall(why string, args []Val, rt types.Type, mayWrite boo
 // externalCall: default for library code without a model/contract: the result is
 // arbitrary; memory reachable one level from pointer/slice arguments is
 // havocked; a func-typed argument may be called, so everything is havocked.
+var nondetExternals = map[string]bool{"time.Now": true, "time.Since": true, "time.Until": true}
+
+// valueOnly: every argument is a plain value (no pointer, slice, map, chan, func or interface).
+func (vc *VC) valueOnly(args []Val) bool {
+	for _, a := range args {
+		if a.Typ == nil {
+			continue
+		}
+		switch a.Typ.Underlying().(type) {
+		case *types.Pointer, *types.Slice, *types.Map, *types.Chan, *types.Signature, *types.Interface:
+			return false
+		case *types.Struct:
+			if vc.flatStruct(a.Typ) {
+				for _, l := range vc.shape(a.Typ) {
+					if l.GoT == nil {
+						return false
+					}
+					switch l.GoT.Underlying().(type) {
+					case *types.Pointer, *types.Map, *types.Chan, *types.Signature:
+						return false
+					}
+				}
+			}
+		}
+	}
+	return true
+}
+
 func (fr *Frame) externalCall(name string, sig *types.Signature, args []Val, rt types.Type) Val {
 	vc := fr.vc
+	if vc.valueOnly(args) && !nondetExternals[name] && !strings.HasPrefix(name, "rand.") && !strings.HasPrefix(name, "randutil.") {
+		// a library function of plain values: a deterministic function of its arguments without side effects on modelled state
+		vc.note("external call " + name + ": pure function of its (value-only) arguments")
+		var as, srt []string
+		for _, a := range args {
+			for i, l := range a.L {
+				as = append(as, l)
+				srt = append(srt, vc.sortOf(a, i))
+			}
+		}
+		out := Val{Typ: rt}
+		for _, l := range vc.shape(rt) {
+			if len(as) == 0 {
+				out.L = append(out.L, vc.declConst("uf_"+name+l.Suffix, l.Sort))
+				continue
+			}
+			f := vc.declFun("uf_"+name+l.Suffix, srt, l.Sort)
+			out.L = append(out.L, "("+f+" "+joinSp(as)+")")
+		}
+		out = fr.nameVal2("ret."+sanitize(name), out)
+		return fr.typed(out)
+	}
 	vc.note("external call " + name + ": default effect (args' pointees havocked, result arbitrary)")
 	set := map[string]bool{}
 	h := fr.cur.heap
@@ -325,7 +383,7 @@ func (fr *Frame) applyContract(ct *Contract, sig *types.Signature, names []strin
 	}
 	res := vc.freshVal("ret."+sanitize(calleeKey), rt)
 	fr.typed(res)
-	post := &Env{vc: vc, vars: map[string]Val{}, heap: fr.cur.heap, old: pre, now: fr.cur.now, pkg: env.pkg, what: env.what}
+	post := &Env{vc: vc, vars: map[string]Val{}, heap: fr.cur.heap, old: pre, now: fr.cur.now, pkg: env.pkg, what: env.what, oldNowT: env.now}
 	for k, v := range env.vars {
 		post.vars[k] = v
 	}
@@ -385,10 +443,9 @@ func (fr *Frame) havocModifies(ct *Contract, env *Env, calleeKey string) *Heap {
 	vc := fr.vc
 	h := fr.cur.heap
 	if !ct.HasMod {
-		if fn := vc.P.Funcs[calleeKey]; fn != nil {
-			return vc.heapHavoc(h, vc.modSet(fn, map[*ssa.Function]bool{}))
-		}
-		return vc.heapHavoc(h, map[string]bool{"*": true})
+		set := map[string]bool{}
+		vc.modSetContractT(ct, vc.P.Funcs[calleeKey], set, nil)
+		return vc.heapHavoc(h, set)
 	}
 	set := map[string]bool{}
 	for _, m := range ct.Modifies {
@@ -428,6 +485,27 @@ func (e *Env) modTargets(m string) (locs []*Loc, fams []string) {
 	}
 	if strings.HasPrefix(m, "fam:") {
 		return nil, []string{strings.TrimPrefix(m, "fam:")}
+	}
+	if strings.HasPrefix(m, "*") && len(m) > 1 {
+		se, err := parseSExpr(m[1:])
+		if err != nil {
+			e.errf("bad modifies %q", m)
+			return
+		}
+		v := e.eval(se)
+		if v.Typ != nil {
+			if pt, ok := v.Typ.Underlying().(*types.Pointer); ok {
+				if v.Loc != nil {
+					return []*Loc{v.Loc}, nil
+				}
+				if vc.flatStruct(pt.Elem()) {
+					return nil, []string{"H_" + vc.typeName(pt.Elem()) + ".*"}
+				}
+				return []*Loc{{Fam: "E_" + vc.typeName(pt.Elem()), Idx: []string{v.L[0], "0"}, Typ: pt.Elem()}}, nil
+			}
+		}
+		e.errf("modifies %q: not a pointer", m)
+		return
 	}
 	if strings.HasSuffix(m, "[*]") {
 		se, err := parseSExpr(strings.TrimSuffix(m, "[*]"))
@@ -711,7 +789,7 @@ func (vc *VC) modSetExternal(c *ssa.CallCommon, set map[string]bool) {
 func (vc *VC) modSetContractArgs(ct *Contract, callee *ssa.Function, set map[string]bool, c *ssa.CallCommon, invoke bool) {
 	types_ := map[string]types.Type{}
 	var names []string
-	if callee != nil {
+	if callee != nil && len(ct.Params) == 0 {
 		names = paramNames(callee)
 	} else {
 		names = ct.Params
@@ -741,6 +819,19 @@ func (vc *VC) modSetContractT(ct *Contract, callee *ssa.Function, set map[string
 		return
 	}
 	if !ct.HasMod {
+		// ghost updates performed by the callee's own site clauses
+		for _, sc := range ct.Sites {
+			if sc.What == "ghost" && sc.GhostLHS != nil {
+				src := strings.TrimSpace(sc.GhostLHS.Src)
+				if i := strings.LastIndex(src, "."); i >= 0 {
+					for k, gf := range vc.S.Ghosts {
+						if gf.Name == src[i+1:] {
+							set["H_"+k] = true
+						}
+					}
+				}
+			}
+		}
 		if callee != nil && len(callee.Blocks) > 0 {
 			for k := range vc.modSet(callee, map[*ssa.Function]bool{}) {
 				set[k] = true
@@ -757,6 +848,18 @@ func (vc *VC) modSetContractT(ct *Contract, callee *ssa.Function, set map[string
 			set["*"] = true
 		case strings.HasPrefix(m, "fam:"):
 			set[strings.TrimPrefix(m, "fam:")] = true
+		case strings.HasPrefix(m, "*") && len(m) > 1:
+			if t, ok := ptypes[m[1:]]; ok {
+				if pt, ok := t.Underlying().(*types.Pointer); ok {
+					if vc.flatStruct(pt.Elem()) {
+						set["H_"+vc.typeName(pt.Elem())+".*"] = true
+					} else {
+						set["E_"+vc.typeName(pt.Elem())+"*"] = true
+					}
+					continue
+				}
+			}
+			set["*"] = true
 		case strings.HasSuffix(m, "[*]"):
 			if t, ok := ptypes[strings.TrimSuffix(m, "[*]")]; ok {
 				switch u := t.Underlying().(type) {
